@@ -4,6 +4,7 @@ pub mod gen {
     include!(concat!(env!("OUT_DIR"), "/conjure/mod.rs"));
 }
 mod c04;
+mod c09;
 mod c19;
 mod handler;
 mod loopback;
@@ -17,6 +18,7 @@ fn main() {
     vcommon::quiet_panics();
     let report: Report = match args.property.as_str() {
         "C04" => c04::run(&args),
+        "C09" => c09::run(&args),
         "C19" => c19::run(&args),
         other => panic!("httploop: unknown property {}", other),
     };
